@@ -91,6 +91,15 @@ class SymV:
     def assume(self, cond):
         core.assume(cond)
 
+    def decide(self, cond):
+        """Truth value of an oracle condition on this path; forks the path when the path
+        condition does not determine it (a harness-level decision, always sound)."""
+        if isinstance(cond, core.SymBool):
+            cond = cond.e
+        if isinstance(cond, z3.BoolRef):
+            return bool(core.wrap_bool(cond))
+        return bool(cond)
+
     def reach(self, tag):
         self.ctx.reach(tag)
 
@@ -171,6 +180,18 @@ class ConV:
 
     def reach(self, tag):
         self.witness.add(tag)
+
+    def decide(self, cond):
+        if isinstance(cond, core.SymBool):
+            cond = cond.e
+        if isinstance(cond, z3.BoolRef):
+            c = z3.simplify(cond)
+            if z3.is_true(c):
+                return True
+            if z3.is_false(c):
+                return False
+            raise core.Unsupported("oracle condition not closed in concrete mode")
+        return bool(cond)
 
     def observe(self, obs):
         self.observation = obs
